@@ -422,7 +422,7 @@ func (s *Session) writeCompressed(rw io.ReadWriter, p *Proposal) (err error) {
 	writer := bufio.NewWriter(rw)
 
 	var (
-		title    = mime.QEncoding.Encode("utf-8", p.title) // Word-encode the title since this field must be ASCII-only
+		title    = encodeTitle(p.title)
 		offset   = fmt.Sprintf("%d", p.offset)
 		length   = len(title) + len(offset) + 2
 		checksum int64
@@ -523,6 +523,20 @@ func (s *Session) writeCompressed(rw io.ReadWriter, p *Proposal) (err error) {
 	statusTicker.Stop()
 
 	return err
+}
+
+// encodeTitle word-encodes the title since this field must be ASCII-only.
+//
+// The title is truncated (on a character boundary) if the encoded form would exceed the 80 bytes
+// allowed by the protocol, as the header length must fit in a single byte.
+func encodeTitle(title string) string {
+	const maxTitleLength = 80
+	encoded := mime.QEncoding.Encode("utf-8", title)
+	for runes := []rune(title); len(encoded) > maxTitleLength && len(runes) > 1; {
+		runes = runes[:len(runes)-1]
+		encoded = mime.QEncoding.Encode("utf-8", string(runes))
+	}
+	return encoded
 }
 
 func (s *Session) readCompressed(rw io.ReadWriter, p *Proposal) (err error) {
